@@ -44,4 +44,25 @@ pub trait StrictOps {
     fn tensor_operations<O: Lab, A: Lab>(ops: &[(A, Vec<O>, Vec<O>)]) -> Res<POpen<O, A>>;
     fn coequalize_vertices<O: Lab, A: Lab>(h: &POpen<O, A>, q: (&[usize], usize)) -> Res<Option<POpen<O, A>>>;
     fn validate_roundtrip<O: Lab, A: Lab>(f: &POpen<O, A>) -> Res<bool>;
+
+    // ---- graph algorithms -------------------------------------------------------------------
+    /// (layer of each operation, unvisited flags)
+    fn layer<O: Lab, A: Lab>(f: &POpen<O, A>) -> Res<(Vec<usize>, Vec<usize>)>;
+    /// (groups of operations per layer, unvisited flags)
+    fn layered_operations<O: Lab, A: Lab>(f: &POpen<O, A>) -> Res<(Vec<Vec<usize>>, Vec<usize>)>;
+    fn hook_converse(lists: &[Vec<usize>], codomain: usize) -> Res<Vec<Vec<usize>>>;
+    fn hook_operation_adjacency<O: Lab, A: Lab>(f: &POpen<O, A>) -> Res<Vec<Vec<usize>>>;
+    fn hook_node_adjacency<O: Lab, A: Lab>(f: &POpen<O, A>) -> Res<Vec<Vec<usize>>>;
+    fn hook_indegree(adj: &[Vec<usize>]) -> Res<Vec<usize>>;
+    fn hook_kahn(adj: &[Vec<usize>]) -> Res<(Vec<usize>, Vec<usize>)>;
+    fn is_acyclic<O: Lab, A: Lab>(f: &POpen<O, A>, via_open: bool) -> Res<bool>;
+    fn is_monogamous<O: Lab, A: Lab>(f: &POpen<O, A>) -> Res<bool>;
+    fn degrees<O: Lab, A: Lab>(f: &POpen<O, A>, node: usize) -> Res<(usize, usize)>;
+    /// evaluate with `interp(label, args) -> outputs`; returns the outputs (None = refused) and the
+    /// log of every (label, args) the library asked the interpreter to apply
+    fn eval<O: Lab, A: Lab>(f: &POpen<O, A>, inputs: &[u64], interp: &(dyn Fn(&A, &[u64]) -> Vec<u64> + Sync)) -> Res<(Option<Vec<u64>>, Vec<(A, Vec<u64>)>)>;
+    /// Ok(Ok(())) accepted, Ok(Err(variant)) rejected
+    fn arrow_new<O: Lab, A: Lab>(g: &POpen<O, A>, h: &POpen<O, A>, w: (&[usize], usize), x: (&[usize], usize)) -> Res<Result<(), String>>;
+    /// (is_monomorphism, is_convex_subgraph) of an arrow built without validation
+    fn arrow_mono_convex<O: Lab, A: Lab>(g: &POpen<O, A>, h: &POpen<O, A>, w: (&[usize], usize), x: (&[usize], usize)) -> Res<(bool, bool)>;
 }
